@@ -6,7 +6,7 @@ branch c13, over the constants regenerated into `NV.Gen.C13`.  Quantification is
 buffer state satisfying the stated invariant (which the initial state satisfies and every step preserves), every
 byte stream and every way of cutting it into reads.
 -/
-import NV.C13.Lemmas11
+import NV.C13.Lemmas15
 
 namespace NV.C13
 
@@ -196,7 +196,7 @@ theorem framing_never_crashes (o : Oracle) (p : Port) (ops : List AnyOp) :
     | send b =>
       exact ih _ acc ⟨h.textLen, h.se, h.eMax, h.dec⟩ hs ha
     | read =>
-      obtain ⟨s', evs, h1, h2, h3⟩ := getUserData_ok' o h
+      obtain ⟨s', evs, h1, h2, h3, _, _⟩ := getUserData_ok' o h
       have : anyStep o s .read = .ok (s', none) := by simp [anyStep, h1, Except.map]
       simp only [anyRun, this]; exact ih _ acc h2 (by rw [h3]; exact hs) ha
     | line b =>
@@ -217,6 +217,31 @@ theorem framing_never_crashes (o : Oracle) (p : Port) (ops : List AnyOp) :
         · have : x = l := by simpa using hx
           subst this; exact h4 x rfl
 
+/-- **SINGLE_CHAR extraction is memory safe.**  For every state with the buffer invariant and a NUL at or behind
+    `text_end` inside the array — both are established by new_interactive and re-established by every function of the
+    framing code (`getUserData_N`, `addConsoleLine_N`, this theorem) — get_user_command, in line mode *or* in
+    single-character mode (where first_cmd_in_buf returns `text + text_start` without looking for a terminator),
+    reads its C string inside `text[]`, writes at most MAX_TEXT bytes to its static buffer, and keeps both. -/
+theorem single_char_extraction_safe (s : S) (h : Inv s) (hn : NulAfter s) :
+    ∃ s' r, getUserCommand s = .ok (s', r) ∧ Inv s' ∧ NulAfter s' ∧ ∀ l, r = some l → l.length + 1 ≤ MAXT :=
+  let ⟨s', r, h1, h2, h3, _, _, h6⟩ := getUserCommand_N h hn
+  ⟨s', r, h1, h2, h3, h6⟩
+
+/-- non-vacuity: fresh connections; and the hypothesis is about the NUL the code stores, not about a cleared array:
+    a buffer full of 0xA5 except `text[0]` satisfies it -/
+example (p : Port) : Inv (S.init p) ∧ NulAfter (S.init p) := ⟨init_inv p, nulAfter_init p⟩
+example : NulAfter { S.init .telnet with text := 0 :: List.replicate 5 0xA5 } := ⟨0, Nat.le_refl _, by decide, rfl⟩
+
+/-- **the model run of the case language never reaches a crash outcome** — every port, every oracle (errors,
+    destructs), every schedule of sends / reads / extractions / drain and finish loops / console lines, with
+    single-character mode switched on at any point: `run` never takes a `crash` branch (out-of-bounds access,
+    size wrap-around, C string running off `text[]`), the explicit index check after each step never fires, and
+    the final state satisfies the invariant.  This is the judge's `crash` and `index` clauses on model traces. -/
+theorem run_never_crashes (p : Port) (o : Oracle) (ops : List Op) (hw : WellFormed p ops) :
+    (run p o ops).dead = false ∧ Inv (run p o ops).s :=
+  let k := run_rinv p o ops hw
+  ⟨k.alive, k.inv⟩
+
 /-! ### the end-to-end clause: delivered command lines = `lines stream`, for every schedule -/
 
 /-- every schedule of client sends, read events and extractions runs to the end (line mode, every port) -/
@@ -231,7 +256,7 @@ theorem fRun_never_crashes (o : Oracle) (p : Port) (ops : List FOp) : ∃ f, fRu
       simp only [fRun, fStep]
       exact ih _ ⟨h.textLen, h.se, h.eMax, h.dec⟩ hs
     | read =>
-      obtain ⟨s', evs, h1, h2, h3⟩ := getUserData_ok' o h
+      obtain ⟨s', evs, h1, h2, h3, _, _⟩ := getUserData_ok' o h
       simp only [fRun, fStep, h1]
       exact ih _ h2 (by rw [h3]; exact hs)
     | extract =>
